@@ -323,7 +323,7 @@ fn split_files(defs: &[TsDef], rng: &mut Rng) -> Vec<TsDoc> {
 pub fn run(ctx: &Ctx, rep: &mut Report) {
     crate::gen_syntax::set_allow_block(false);
     rep.note("feature mask: no block strings (their raw-value defect belongs to C07)");
-    let n = ctx.budget(4_000, 400_000);
+    let n = ctx.budget(32_000, 800_000);
     for case in 0..n {
         let mut rng = ctx.rng("case", case);
         let defs = gen_case(&mut rng);
